@@ -2,7 +2,6 @@ package storesim
 
 import (
 	"fmt"
-	"os"
 	"testing"
 	"time"
 
@@ -185,9 +184,6 @@ func (w *c05World) fail(v *simrt.Violation) {
 
 func (c05) Execute(t *testing.T, ctx *simrt.Ctx) *simrt.Violation {
 	w := &c05World{ctx: ctx, content: map[string]*State{}, abandoned: map[int64]int{}}
-	if d := os.Getenv("VERIF_C05_DUMP"); d != "" {
-		_ = simrt.WriteReplay(d, ctx.Sc)
-	}
 	simrt.InBubble(t, func() { w.run() })
 	return w.viol
 }
